@@ -100,6 +100,7 @@ def outcomeStr : Outcome → String
   | .fresh => "fresh"
   | .recycled v => s!"recycled {rowStr v}"
   | .sampled r => s!"sampled {natsStr r}"
+  | .foundLate r => s!"foundLate {natsStr r}"
   | .exhausted r => s!"exhausted {natsStr r}"
 
 def clausesStr (l : List String) : String := if l.isEmpty then "ok" else ",".intercalate (l.map tok)
